@@ -271,13 +271,13 @@ def name_tree(rng, style, pages, first_free, titles, nbuilt):
         return rng.choice([A([pg(), N('Fit')]), A([pg(), N('XYZ'), I(0), I(792), NULL]), A([pg(), N('FitH'), R('100.5')]),
                            A([I(0), N('Fit')])])
     keyno = [0]
+    def stored(t):
+        # the Title bytes build_outline writes for the string t (Bookmark::new / outline_child)
+        if all(c < 128 for c in t):
+            return bytes(t)
+        return b'\xfe\xff' + ''.join(chr(c) for c in t).encode('utf-16-be')
     def key():
         keyno[0] += 1
-        if style == 'title-keys' and titles:
-            t = rng.choice(titles)
-            b = bytes(c for c in t if c < 128)
-            if b and rng.random() < 0.7:
-                return S(b)
         k = ('n%03d' % keyno[0]).encode() + bytes(rng.randint(33, 126) for _ in range(rng.randint(0, 4)))
         return rng.choice([S(k), S(k), H(k)])
     def value():
@@ -324,10 +324,22 @@ def name_tree(rng, style, pages, first_free, titles, nbuilt):
         root, how = leaf(rng.randint(1, 5)), rng.choice(['dests-direct', 'names-direct'])
     elif style == 'flat-ref':
         root, how = leaf(rng.randint(1, 5)), rng.choice(['dests-ref', 'names-ref', 'names-refref'])
-    elif style in ('tree', 'title-keys'):
+    elif style == 'tree':
         root = [('Kids', A([REF(*put(D(tree(2)))) for _ in range(rng.randint(1, 3))]))]
         if rng.random() < 0.3:
             root += leaf()                                   # a node with both Kids and Names
+    elif style == 'title-keys':
+        # every bookmark title (as stored) is ALSO a destination name, pointing somewhere else: to another page, to a
+        # non-page, or with another fit type -- the outline's explicit destinations must win
+        ents = []
+        for t, p in titles:
+            others = [q for q in pages if q != p] or [p]
+            tgt = rng.choice(others + others + [(first_free + 900, 0)])
+            arr = A([REF(*tgt), rng.choice([N('Fit'), N('FitB'), N('XYZ')])])
+            v = rng.choice([REF(*put(arr)), REF(*put(D([('D', arr)]))), D([('D', arr)])])
+            ents += [rng.choice([S, S, H])(stored(t)), v]
+        lf = [('Names', A(ents + names_arr(rng.randint(0, 2))))]
+        root = rng.choice([lf, [('Kids', A([REF(*put(D(lf)))]))], [('Kids', A([REF(*put(D(leaf(1)))), REF(*put(D(lf)))]))]])
     elif style == 'names-ref':
         root, how = tree(2), 'names-refref'
     elif style == 'old-style':
@@ -510,7 +522,7 @@ def gen_bookmark_case(rng, kind, tier, deep_n=None, wide=None, ntree=None):
     if ntree is not None:
         # a name tree in the catalog (objects numbered above max_id, which is raised: build_outline numbers from max_id + 1)
         first_free = max([max_id] + [i for (i, _), _ in objects]) + 1
-        ents, extra, top = name_tree(rng, ntree, pages, first_free, titles, 1 + 2 * len(ops))
+        ents, extra, top = name_tree(rng, ntree, pages, first_free, list(zip(titles, page_of))[:12], 1 + 2 * len(ops))
         objects = [(i, o) if i != cat else (i, o[:-1] + ' ' + ' '.join(L(xb(k), v) for k, v in ents) + ')') for i, o in objects]
         objects += extra
         if kind != 'stale':
@@ -710,6 +722,8 @@ def gen_cases(rng, tier):
             cases.append(gen_bookmark_case(rng, rng.choice(['plain', 'plain', 'zero', 'orphan', 'hasoutlines']), tier, ntree=st))
         for st in rng.sample(NT_VALID, 6) + rng.sample(NT_REFUSED, 4):
             cases.append(gen_bookmark_case(rng, rng.choice(kinds), tier, ntree=st))
+        for k in ['plain', 'plain', 'zero', 'orphan', 'hasoutlines', 'plain']:
+            cases.append(gen_bookmark_case(rng, k, tier, ntree='title-keys'))
         for _ in range(14):
             cases.append(gen_reader_case(rng, tier, named=True))
     return cases
